@@ -226,3 +226,29 @@ Proof.
   exists s. split; [reflexivity|]. split; [eapply grun_greach; [constructor|exact E]|].
   vm_compute in E. inversion E; subst. split; reflexivity.
 Qed.
+
+(* the frame / admission lemmas restated over `reach` *)
+Lemma rw_failed_lock_noop_thm s l s' :
+  reach s -> step s l = Some s' -> lock_label s l = true ->
+  (exists t, l = Th t /\ th_step s t = Some (s', ORet 0 0) /\ holders s' = (t, md (thr s t)) :: holders s)
+  \/ frame (C06_RWProofs2.actor l) s s'.
+Proof. intros H. apply lock_step_frame. apply reach_Inv. exact H. Qed.
+
+Lemma rw_failed_return_noop_thm s t s' r e :
+  reach s -> lock_pc (pc (thr s t)) = true -> th_step s t = Some (s', ORet r e) -> r <> 0 -> frame t s s'.
+Proof. intros H. apply failed_lock_frame. apply reach_Inv. exact H. Qed.
+
+Lemma rw_admission_thm s t :
+  reach s -> pc (thr s t) = UlEnter -> mtx s = None -> dec_state (st s) = 0 ->
+  exists n s', run_thread n s t = Some s' /\ st s' = 0 /\ mtx s' = None /\ pc (thr s' t) = Idle /\
+    match q s with
+    | [] => q s' = []
+    | h :: r =>
+        match md (thr s h) with
+        | WR => q s' = r /\ wake (thr s' h) = Some WNotify /\ (forall x, x <> h -> x <> t -> thr s' x = thr s x)
+        | RD => q s' = snd (rd_split (fun x => md (thr s x)) (q s)) /\
+                (forall x, In x (fst (rd_split (fun x => md (thr s x)) (q s))) -> wake (thr s' x) = Some WNotify) /\
+                (forall x, ~ In x (fst (rd_split (fun x => md (thr s x)) (q s))) -> x <> t -> thr s' x = thr s x)
+        end
+    end.
+Proof. intros H. apply admission_atomic. apply reach_Inv. exact H. Qed.
